@@ -16,6 +16,7 @@ for P in "$@"; do
   grep -q "pydiffx/sections.py" "$P" && IDS="$IDS C01 C09 C10"
   [ -n "$ALL" ] && IDS="C01 C02 C03 C04 C05 C06 C07 C08 C09 C10 C11 C12 C13 C14 C15 C16 C17 C18 C19 C20"
   own="$(echo "$P" | sed -n 's#.*seeded/\(C[0-9]*\)-.*#\1#p')"
+  [ -n "$OWN_ONLY" ] && [ -n "$own" ] && IDS=""
   IDS="$(echo $IDS $own | tr ' ' '\n' | sort -u | tr '\n' ' ')"
   D="$(mktemp -d /tmp/mx-XXXXXX)"
   cp -r /repo/python /repo/docs "$D"/
